@@ -225,6 +225,26 @@ def part_positions(sh, res):
                 else:
                     res.feat('position_' + label)
                     res.nontrivial += 1
+    # column-name variables used only inside an f-string (the engine scans the raw query text for them on purpose)
+    fnames = ['x', 'Y', 'x7', '_x', 'col_1']
+    for n1 in fnames:
+        for n2 in fnames:
+            if n1 == n2:
+                continue
+            hdr = [n1, n2]
+            for text, exp in (('select NR, f"{a.%s}:{a.%s}"' % (n1, n2), [[i, 'c1r%d:c2r%d' % (i, i)] for i in (1, 2, 3)]),
+                              ("select f\"<{a['%s']}>\"" % n2, [['<c2r%d>' % i] for i in (1, 2, 3)]),
+                              ('update set a2 = f"{a.%s}!"' % n1, [['c1r%d' % i, 'c1r%d!' % i] for i in (1, 2, 3)])):
+                got = drive.run_py(text, qcheck.copy_table(ROWS), None, hdr, None)
+                res.evaluations += 1
+                res.traces += 1
+                res.states += 1
+                res.transitions += 1
+                if got['error'] is not None or got['records'] != exp:
+                    res.violation('name-binds-wrong-column', {'backend': 'table', 'position': 'f-string', 'header': hdr, 'query': text}, exp, {'records': got['records'], 'error': got['error']})
+                else:
+                    res.feat('fstring_names')
+                    res.nontrivial += 1
     # names that look like RBQL's own variables
     special = ['NR', 'NF', 'NU', 'aNR', 'bNR', 'a1', 'b2', 'count', 'top', 'x']
     for n1 in special:
@@ -359,8 +379,63 @@ def part_with(sh, res):
         shutil.rmtree(scratch, ignore_errors=True)
 
 
+def part_with_js(sh, res):
+    """the WITH modifier through rbql-js query_csv (stream and bulk mode), differential like part_with"""
+    from vf import js
+    if not js.available():
+        res.feat('js_skipped')
+        return
+    base = '/dev/shm' if os.path.isdir('/dev/shm') else tempfile.gettempdir()
+    scratch = tempfile.mkdtemp(prefix='vfc09j.', dir=base)
+    try:
+        p1, p2, po = os.path.join(scratch, 't1.csv'), os.path.join(scratch, 't2.csv'), os.path.join(scratch, 'o.csv')
+        with open(p1, 'w') as f:
+            f.write('name,val\nk,1\nm,2\nname,3\n')
+        with open(p2, 'w') as f:
+            f.write('name,jv\nk,p\nm,q\nname,r\n')
+        meaning = {'header': True, 'headers': True, 'noheader': False, 'noheaders': False}
+        bases = ['select a.name, b.jv join t2.csv on a1 == b1', 'select b["jv"], a["val"] join t2.csv on a.name == b.name', 'select a1, a2, NR', 'select NR, a2 where a1 != "zz"',
+                 'select a1, b2, bNR join t2.csv on a1 == b1', 'select * left join t2.csv on a1 == b1', 'update set a2 = NR']
+        batch, meta = [], []
+        for q in bases:
+            for bulk in (False, True):
+                for flag in (True, False):
+                    batch.append({'op': 'query_csv', 'query': q, 'input_path': p1, 'out_path': po, 'dlm': ',', 'policy': 'quoted', 'with_headers': flag, 'bulk': bulk})
+                    meta.append(('plain', q, bulk, flag, None))
+                    for mod in meaning:
+                        for spell in ('with (%s)', 'WITH (%s)'):
+                            batch.append({'op': 'query_csv', 'query': q + ' ' + (spell % mod), 'input_path': p1, 'out_path': po, 'dlm': ',', 'policy': 'quoted', 'with_headers': flag, 'bulk': bulk})
+                            meta.append(('mod', q, bulk, flag, mod))
+        outs = js.run_batch(batch)
+        plain = {}
+        for m, o in zip(meta, outs):
+            if m[0] == 'plain':
+                plain[(m[1], m[2], m[3])] = o
+        for m, c, o in zip(meta, batch, outs):
+            if m[0] != 'mod':
+                continue
+            exp = plain[(m[1], m[2], meaning[m[4]])]
+            res.evaluations += 1
+            res.traces += 1
+            res.states += 1
+            res.transitions += 1
+            strip = lambda r: {'output': r.get('output'), 'warnings': sorted(r.get('warnings', [])), 'error': (r.get('error') or {}).get('name')}
+            if strip(o) != strip(exp):
+                res.violation('js:with-modifier-does-not-override', {'backend': 'js-query_csv', 'query': c['query'], 'caller_flag': m[3], 'bulk': m[2]}, strip(exp), strip(o))
+            else:
+                res.feat('js_with_override')
+                if m[3] != meaning[m[4]]:
+                    res.nontrivial += 1
+        res.sample({'js_with_queries': bases[:3]})
+    finally:
+        shutil.rmtree(scratch, ignore_errors=True)
+
+
 def run_shard(sh):
     res = core.Result()
+    if sh['part'] == 'with_js':
+        part_with_js(sh, res)
+        return res
     {'table': part_table, 'backends': part_backends, 'positions': part_positions, 'hnd': part_header_not_data, 'with': part_with}[sh['part']](sh, res)
     return res
 
@@ -372,7 +447,7 @@ def main(tier, seed):
     shards = [{'part': 'table', 'lo': lo, 'hi': hi} for lo, hi in core.chunks(len(names), 64)]
     npairs = len(subset_pairs(T))
     shards += [{'part': 'backends', 'full': T, 'lo': lo, 'hi': hi} for lo, hi in core.chunks(npairs, 32)]
-    shards += [{'part': 'positions', 'ntriple': 12 if T else 8}, {'part': 'hnd'}, {'part': 'with'}]
+    shards += [{'part': 'positions', 'ntriple': 12 if T else 8}, {'part': 'hnd'}, {'part': 'with'}, {'part': 'with_js'}]
     res = core.run_shards('vf.checks.c09', shards)
     return core.finish(PID, tier, seed, res, t0,
         rule='all names of length 1-2 over 16 atoms; every ordered pair of distinct names as a 2-column header through query_table with a["n"], a[\'n\'] and a.n; a subset of pairs (all single-atom pairs, each 2-atom name against 3 decoys and its confusable partners) through '
@@ -381,7 +456,7 @@ def main(tier, seed):
         assumptions=['names containing an a.ident / b.ident token are excluded (the quantifier)', 'the name inside a["..."] is written with the canonical escapes (backslash, quote, \\n, \\r, \\t)'],
         extra={'names': len(names), 'backend_pairs': npairs},
         min_features={'table_dq': 50000, 'table_sq': 50000, 'table_attr': 500, 'csv_dq': 300, 'pandas_dq': 300, 'sqlite_dq': 300, 'csv_join': 300, 'direct_mode_bare': 50, 'triples': 100, 'header_not_data': 20,
-                      'with_overrides_opposite_flag': 50, 'variable_like_names': 300, 'position_update': 100})
+                      'with_overrides_opposite_flag': 50, 'variable_like_names': 300, 'fstring_names': 40, 'js_with_override': 100, 'position_update': 100})
 
 
 def replay(rep):
